@@ -257,7 +257,9 @@ def s_vy(s, ind, out):
     elif k in ("break", "continue", "pass", "raise"):
         out.append(pad + k)
     elif k == "assert":
-        out.append(f"{pad}assert {e_vy(s.e)}")
+        out.append(f"{pad}assert {e_vy(s.e)}" + (f', "{s.reason}"' if s.f.get("reason") is not None else ""))
+    elif k == "raisemsg":
+        out.append(f'{pad}raise "{s.reason}"')
     elif k == "return":
         out.append(f"{pad}return" + ("" if s.e is None else " " + e_vy(s.e)))
     elif k == "log":
@@ -358,7 +360,11 @@ def s_coq(s):
     if k == "raise":
         return "SRaise"
     if k == "assert":
+        if s.f.get("reason") is not None:
+            return f"(SAssertR {e_coq(s.e)} {s.rid})"
         return f"(SAssert {e_coq(s.e)})"
+    if k == "raisemsg":
+        return f"(SRaiseR {s.rid})"
     if k == "return":
         return "(SReturn None)" if s.e is None else f"(SReturn (Some {e_coq(s.e)}))"
     if k == "log":
@@ -405,6 +411,7 @@ class Program:
         self.events = []     # (name, [(fname, ty)])
         self.sto = []        # (name, ty)
         self.tra = []        # (name, ty)
+        self.reasons = []    # revert reason strings (index = id used by the Coq term)
         self.ints = []       # internal Fun (index = Coq index; only lower indices are called)
         self.exts = []       # external Fun
 
